@@ -8,25 +8,25 @@ import (
 )
 
 type ReplayFile struct {
-	Property    string            `json:"property"`
-	Obligation  string            `json:"obligation"`
-	Function    string            `json:"function"`
-	Class       string            `json:"class"`
-	Clause      string            `json:"clause"`
-	Anchor      string            `json:"anchor"`
-	Pos         string            `json:"pos"`
-	Verdict     string            `json:"verdict"`
-	Solver      string            `json:"solver"`
-	Attempts    []string          `json:"attempts"`
-	SolverOut   string            `json:"solver_output"`
-	Model       map[string]string `json:"model,omitempty"`
-	SMTFile     string            `json:"smt_file"`
-	Reproduced  bool              `json:"reproduced_on_real_code"`
-	ReplayTest  string            `json:"replay_test,omitempty"`
-	ReplayCmd   string            `json:"replay_cmd,omitempty"`
-	Transcript  string            `json:"replay_transcript,omitempty"`
-	Note        string            `json:"note,omitempty"`
-	Path        string            `json:"-"`
+	Property   string            `json:"property"`
+	Obligation string            `json:"obligation"`
+	Function   string            `json:"function"`
+	Class      string            `json:"class"`
+	Clause     string            `json:"clause"`
+	Anchor     string            `json:"anchor"`
+	Pos        string            `json:"pos"`
+	Verdict    string            `json:"verdict"`
+	Solver     string            `json:"solver"`
+	Attempts   []string          `json:"attempts"`
+	SolverOut  string            `json:"solver_output"`
+	Model      map[string]string `json:"model,omitempty"`
+	SMTFile    string            `json:"smt_file"`
+	Reproduced bool              `json:"reproduced_on_real_code"`
+	ReplayTest string            `json:"replay_test,omitempty"`
+	ReplayCmd  string            `json:"replay_cmd,omitempty"`
+	Transcript string            `json:"replay_transcript,omitempty"`
+	Note       string            `json:"note,omitempty"`
+	Path       string            `json:"-"`
 }
 
 func writeReplay(root string, p *Program, prop string, o *Obligation, r *SolveResult) *ReplayFile {
